@@ -254,8 +254,8 @@ class Run:
         return r
 
     # --- U2: let TLC enumerate the behaviours of a generation model; one JSON line per behaviour
-    def generate(self, module, cfg, outpath, timeout=600, heap="4g", simulate=None, extra=(), note=""):
-        r = run_tlc(module, cfg, workers=1, timeout=timeout, heap=heap, simulate=simulate, extra=extra,
+    def generate(self, module, cfg, outpath, timeout=600, heap="4g", simulate=None, extra=(), note="", env=None):
+        r = run_tlc(module, cfg, env=env, workers=1, timeout=timeout, heap=heap, simulate=simulate, extra=extra,
                     metadir=os.path.join(self.workdir, "md-gen-" + module))
         self.cmds.append(r.cmd)
         n = 0
